@@ -18,6 +18,7 @@ long long closestLevel(const CircuitSpec &s, long long y) {
     if (std::llabs(r.minY - y) < std::llabs(best - y)) best = r.minY;
   return best;
 }
+bool judgeCase(const CircuitSpec &s, const ColoquinteParameters &params, Report &R);
 }  // namespace
 
 bool prop(Tape &t, Report &R) {
@@ -53,6 +54,25 @@ bool prop(Tape &t, Report &R) {
     R.discard("no movable cell");
     return true;
   }
+  // decided at the very end of the tape: a large companion instance, and the order in which
+  // the rows are handed to the circuit (no read happens while a case is judged)
+  uint32_t tail = t.next();
+  uint32_t order = t.next();
+  R.classify(permuteRows(s, order));
+  if (!judgeCase(s, params, R)) return false;
+  if (tail % 32 == 1) {
+    CircuitSpec big = genLargeCircuit(tail, o, 150);
+    permuteRows(big, order);
+    if (big.nbMovable() > 0) {
+      R.classify(big.nbMovable() >= 100 ? "large:100+cells" : "large:<100cells");
+      if (!judgeCase(big, params, R)) return false;
+    }
+  }
+  return true;
+}
+
+namespace {
+bool judgeCase(const CircuitSpec &s, const ColoquinteParameters &params, Report &R) {
   std::vector<int> orientBefore;
   for (auto &c : s.cells) orientBefore.push_back(c.orient);
   bool polarised = false;
@@ -109,6 +129,7 @@ bool prop(Tape &t, Report &R) {
   if (polarised && (nt || crossed)) R.nontrivial(s.hash(), [&] { return s.json(24); });
   return true;
 }
+}  // namespace
 
 // Exhaustive: the two orientation tables over all 5 polarities x 10 enum values.
 bool exhaustive(Report &R, int shard, int nshards, Tape &failTape) {
